@@ -12,6 +12,8 @@ Decided (FACTS: forward must-analysis with value numbering, path-sensitive guard
 Not decided: that estimates return "to within normal tolerance" after the dropout (quantitative).
 Added after the seeding rounds (DESIGN.md 6.6-6.8):
  DROPOUT-EXIT / RECOMPUTED  the zero side of every zero test on a sample norm raises or returns; AQUA.alpha never feeds back into itself.
+Added after seeding rounds 5 and 6 and refactoring round 4 (DESIGN.md 6.10-6.12):
+ ROLEQ.attitude_propagation among the UNIT-RET entries (discharges the unit assumption of the dropout arm).
 """
 import ast
 LINT_EXTRA_FILES = ("ahrs/common/orientation.py", "ahrs/utils/core.py")      # acc2q / am2q / ecompass helpers the filters start from; the shared input validators
